@@ -251,6 +251,15 @@ func probeOps() []hx.T {
 	}
 }
 
+// what the node knows about itself: address, node id, own services
+func self(addr, id int64, svcs ...[]int64) hx.T {
+	l := make([]any, len(svcs))
+	for i, s := range svcs {
+		l[i] = hx.Norm(s)
+	}
+	return hx.C("OSelf", addr, id, l)
+}
+
 // the decisions that consult the default rule, the directory and the lists
 func selfProbeOps() []hx.T {
 	return []hx.T{
@@ -277,10 +286,12 @@ func enumViews(states []int64, emit func([]hx.T)) {
 					// node 1, from node 2 and from a node the view does not list
 					ops := []hx.T{view(node(1, 0, st1, a...), node(2, 2, st2, b...))}
 					ops = append(ops, probeOps()...)
-					for _, self := range []int64{0, 2, 3} {
-						ops = append(ops, hx.C("OSelf", self))
-						ops = append(ops, selfProbeOps()...)
-					}
+					ops = append(ops, self(0, 1, a...))
+					ops = append(ops, selfProbeOps()...)
+					ops = append(ops, self(2, 2, b...))
+					ops = append(ops, selfProbeOps()...)
+					ops = append(ops, self(3, 7, svc(1, 9)))
+					ops = append(ops, selfProbeOps()...)
 					emit(ops)
 				}
 			}
@@ -687,7 +698,11 @@ func genRandom(r *rand.Rand, maxLen int) ([]hx.T, map[string]bool) {
 		case p < 46:
 			ops = append(ops, g.calls())
 		case p < 48:
-			ops = append(ops, hx.C("OSelf", g.r.Int63n(5)-1))
+			var own [][]int64
+			for k := g.r.Intn(3); k > 0; k-- {
+				own = append(own, svc(g.ty(), g.name()))
+			}
+			ops = append(ops, self(g.r.Int63n(5)-1, g.r.Int63n(5)-1, own...))
 		case p < 69:
 			ops = append(ops, hx.C("ORequest", g.route(), g.param()))
 		case p < 81:
